@@ -44,7 +44,8 @@ ASSUMPTIONS = ['the text is compared for write/load cycles on the same path '
 
 NASTY_REX = [r'^\\d+"$', r"^it's$", r'^\\\\$', r'^[\\"\']+$', r'^a\\.b$',
              r'^\\w+\\s\\w+$', r'^"[^"]*"$', r'^.*\\\\n$', r'^\\u00e9+$',
-             r'^[^\\W\\d_]+$', r'^é+$', r'^中文$', '^\\t$', r'^\\/$', r'^\\x41$']
+             r'^[^\\W\\d_]+$', r'^é+$', r'^中文$', '^\\t$', r'^\\/$', r'^\\x41$',
+             r'^[A-Z]{2,}$', r'^[a-z]+[!,]$', r'^\\d{1,}$', r'^x{0,}[,]$']
 
 C09_KINDS = [k for k in F.ALL_KINDS if k not in F.TZ_KINDS]
 
@@ -100,8 +101,9 @@ def enrich(draw, cons, frame):
             'utc_time': st.just('2024-01-02T03:04:05+00:00'),
             'creator': st.sampled_from(['TDDA 2.0', 'é"\\']),
             'host': st.just('example.host'),
-            'user': st.sampled_from(['someone', '名前']),
-            'n_records': st.integers(0, 100),
+            'user': st.sampled_from(['someone', '名前', '']),
+            'n_records': st.sampled_from([0, 0, 1, 37, 100]),
+            'n_selected': st.sampled_from([0, 5]),
             'source': st.sampled_from(['/data/x.csv', 'C:\\data\\x.csv']),
         }))
     return cons
@@ -257,6 +259,12 @@ def check_content(out, cons, text, case):
     """The serialised set says what the set given says: same fields in the
     same order, same kinds, same values (date bounds compared as instants,
     a one-element type list and a bare type name taken as equal)."""
+    gotmd = json.loads(text).get('creation_metadata', {})
+    for (k, v) in (cons.get('creation_metadata') or {}).items():
+        if k != 'tddafile' and gotmd.get(k, '<absent>') != v:
+            out.violate('content-preserved', 'creation_metadata',
+                        'creation_metadata %s given as %r, serialised as %r'
+                        % (k, v, gotmd.get(k, '<absent>')))
     got = json.loads(text).get('fields', {})
     want = cons['fields']
     if list(got) != list(want):
